@@ -53,6 +53,11 @@ RunFullAgrees    == LET k == LeadingFull(offset, nw, bits) IN
                        /\ k \in 0..nw
                        /\ \A j \in offset..(offset + W * k - 1) : j \in bits
                        /\ Compacted(offset, nw, bits) = <<offset + k * W, nw - k, IF k = 0 THEN bits ELSE {x \in bits : x >= offset + k * W}>>
+\* a Set beyond the head word only adds the bit and grows the words to hold it: the form Trace_TailBitmapFar uses for
+\* positions 2^31 bits and more beyond the Offset (kept as pairs there)
+FarFormAgrees    == \A idx \in (offset + W)..MaxIdx :
+                       LET wi == (idx - offset) \div W IN
+                       SetF(tbvars, idx) = <<offset, IF wi >= nw THEN wi + 1 ELSE nw, bits \cup {idx}, reclaimed>>
 OffsetMonotone   == [][offset' >= offset]_vars
 CompactKeepsGets == [][last' = "compact" =>
                         \A j \in 0..(offset + W * nw - 1) : Get1Val(j)' = Get1Val(j)]_vars
